@@ -41,7 +41,7 @@ reg('c11_fx_custom_bridged_sudo_ctx', "g_custom", ["C11", "C02"], 'quick', "brid
 reg('c11_fx_custom_bridged_query_ctx', "g_custom", ["C11", "C02"], 'quick', "bridged query handler (into_empty on Deps) sees the caller's storage and env", fixture=CU)
 reg('c11_fx_custom_native_exec_ctx', "g_custom", ["C11", "C02"], 'quick', "native custom-typed interface handler in the same contract", fixture=CU)
 reg('c11_fx_custom_own_exec_ctx', "g_custom", ["C11", "C02"], 'quick', "the contract's own custom-typed handler in the same contract", fixture=CU)
-reg('c11_fx_custom_bridged_ok_response', "g_custom", ["C11", "C02"], 'quick', 'bridged Ok path: the Empty-typed response reaches the caller through IntoResponse::into_response with its data intact and nothing added', fixture=CU)
+reg('c11_fx_custom_bridged_ok_response', "g_custom", ["C11", "C02"], 'quick', 'bridged Ok path: the Empty-typed response reaches the caller through IntoResponse::into_response with its data and its fire-and-forget sub-message (id, payload, gas limit, reply trigger, wrapped message) intact and nothing added', fixture=CU)
 treg("fx_custom.T.wrapper_dispatch_types", "g_custom", ["C11"], CU)
 treg("fx_custom.T.entry_point_types", "g_custom", ["C11", "C06"], CU)
 
